@@ -84,6 +84,66 @@ fn traits() {
     }
 }
 
+/// op=script: a sequence of operations on platform-level regions held in numbered slots; after every operation the number of
+/// region mappings and open descriptors of this process is recorded, reads report (length, the single byte value all bytes have
+/// or -1).  Operations: b<len> from_byte(slot number + 1, len) into a new slot; k<i> clone of slot i into a new slot;
+/// f<d>:<s> slot d .clone_from(slot s); d<i> drop slot i; r<i> read slot i; x<i> send slot i's region through a channel and put
+/// the received copy into a new slot.
+fn script(a: &std::collections::HashMap<String, String>) {
+    let id: u64 = a["id"].parse().unwrap();
+    let mut slots: Vec<Option<OsIpcSharedMemory>> = Vec::new();
+    let mut steps: Vec<serde_json::Value> = Vec::new();
+    let maps0 = shm_mappings() as i64;
+    let fds0 = open_fds().len() as i64;
+    let (tx, rx) = platform::channel().unwrap();
+    let fds1 = open_fds().len() as i64 - fds0; // the channel's two descriptors
+    for (n, op) in a["ops"].split(',').enumerate() {
+        let (k, arg) = op.split_at(1);
+        mark(&format!("sop {}.{}", id, n));
+        let mut read: Option<(usize, i64)> = None;
+        match k {
+            "b" => {
+                let len: usize = arg.parse().unwrap();
+                let b = (slots.len() + 1) as u8;
+                slots.push(Some(OsIpcSharedMemory::from_byte(b, len)));
+            },
+            "k" => {
+                let i: usize = arg.parse().unwrap();
+                let c = slots[i].as_ref().unwrap().clone();
+                slots.push(Some(c));
+            },
+            "f" => {
+                let (d, sidx) = arg.split_once(':').unwrap();
+                let (d, sidx): (usize, usize) = (d.parse().unwrap(), sidx.parse().unwrap());
+                let src = slots[sidx].take().unwrap(); // d != s: taken out only to have both at hand
+                slots[d].as_mut().unwrap().clone_from(&src);
+                slots[sidx] = Some(src);
+            },
+            "d" => {
+                let i: usize = arg.parse().unwrap();
+                slots[i] = None;
+            },
+            "x" => {
+                let i: usize = arg.parse().unwrap();
+                let c = slots[i].as_ref().unwrap().clone();
+                tx.send(b"r", vec![], vec![c]).unwrap();
+                let (_d, _c, mut regs) = rx.recv().unwrap();
+                slots.push(Some(regs.remove(0)));
+            },
+            _ => {
+                let i: usize = arg.parse().unwrap();
+                let r = slots[i].as_ref().unwrap();
+                let all = r.iter().next().map(|b0| if r.iter().all(|b| b == b0) { *b0 as i64 } else { -1 }).unwrap_or(-2);
+                read = Some((r.len(), all));
+            },
+        }
+        mark(&format!("endsop {}.{}", id, n));
+        steps.push(json!({"op": op, "maps": shm_mappings() as i64 - maps0, "fds": open_fds().len() as i64 - fds0 - fds1,
+                          "read": read.map(|(l, b)| vec![l as i64, b])}));
+    }
+    println!("{}", json!({"kind":"shmscript","id":id,"steps":steps}));
+}
+
 fn case(a: &std::collections::HashMap<String, String>) {
     let id: u64 = a["id"].parse().unwrap();
     let len: usize = a["len"].parse().unwrap();
@@ -267,6 +327,7 @@ pub fn run() {
                 traits();
             },
             Some("mmapfail") => mmapfail(),
+            Some("script") => script(&a),
             Some("case") => {
                 mark(&format!("shm {}", a["id"]));
                 case(&a);
